@@ -322,7 +322,7 @@ static void s_parse_authority(struct uri_parser *parser, struct aws_byte_cursor 
         return;
     } else {
         const uint8_t *end = str->ptr + str->len;
-        if (location_of_slash) {
+        if (location_of_slash && (!location_of_qmark || location_of_slash < location_of_qmark)) {
             parser->state = ON_PATH;
             end = location_of_slash;
         } else if (location_of_qmark) {
